@@ -284,7 +284,11 @@ Definition io_event (E : env) (s : st) (ev : Z) : st * list event :=
   if closing s then (s, [EPoll ev])
   else let '(s1, e1) := stream_io E s ev in (s1, EPoll ev :: e1).
 
-Inductive op := OStart (tok : nat) | OStop | OClose | ORun (raw : Z) (wout : bool) | OIo (ev : Z).
+(* OWrite: a uv_write / uv_try_write from our side, whatever its outcome (accepted, queued,
+   EPIPE, ECONNRESET ...): uv__write and its error path touch POLLOUT and the write queue
+   only - nothing the read side looks at changes *)
+Inductive op := OStart (tok : nat) | OStop | OClose | ORun (raw : Z) (wout : bool) | OIo (ev : Z)
+              | OWrite.
 
 Definition flags_ev (s : st) : event := EFlags (readable s) (active s) (closing s).
 
@@ -295,6 +299,7 @@ Definition op_run (E : env) (s : st) (o : op) : st * list event :=
   | OClose => cop_run s CClose
   | ORun raw wout => run_once E s raw wout
   | OIo ev => io_event E s ev
+  | OWrite => (s, [])
   end.
 
 Fixpoint exec (E : env) (s : st) (os : list op) : st * list event :=
